@@ -12,6 +12,7 @@ import SkModel.Spec.Sequence
 import SkModel.Spec.Gate
 import SkModel.Store
 import SkModel.Seeker
+import SkModel.Since
 import SkModel.Spec.Lines
 
 open Lean Sk
@@ -305,10 +306,42 @@ def specGateCase (j : Json) : Json :=
       ("activation", optNat (Spec.activation d.cons t.n)),
       ("homogeneous", toJson (Spec.homogeneous d.cons t.n))]))
 
+/-! ### Since (C16) -/
+
+def toCivil (j : Json) : Civil :=
+  let a := (asArr j).map asNat
+  { y := a.getD 0 0, mo := a.getD 1 0, d := a.getD 2 0, h := a.getD 3 0, mi := a.getD 4 0, s := a.getD 5 0 }
+
+def coutJson : COut → Json
+  | .pass => "p"
+  | .fail => "f"
+  | .undec => "u"
+
+/-- since: Python's since_date (civil); cur/days/hours: constructor arguments as normalised by
+    the harness; lines: extracted timestamps (civil or null) in call order -/
+def runSinceCase (j : Json) : Json :=
+  let cur := toCivil (fld j "cur")
+  let since := toCivil (fld j "since")
+  let days := asInt (fld j "days")
+  let hours := asInt (fld j "hours")
+  let lines := (arrF j "lines").toList.map fun l => match l with
+    | .null => none
+    | v => some (toCivil v)
+  let (st, outs) := applyMany since {} lines
+  let secs := lines.map fun l => match l with
+    | some c => Json.arr #[toJson c.valid, toJson c.toSeconds]
+    | none => .null
+  Json.mkObj [("curValid", toJson cur.valid), ("sinceValid", toJson since.valid),
+    ("curSecs", toJson cur.toSeconds), ("sinceSecs", toJson since.toSeconds),
+    ("window", toJson (windowSeconds days hours)),
+    ("outs", Json.arr (outs.map coutJson).toArray), ("lineSecs", Json.arr secs.toArray),
+    ("pass", toJson st.pass), ("fail", toJson st.fail)]
+
 def handle (j : Json) : Json :=
   match strF j "kind" with
   | "task" => Json.mkObj [("model", runTaskCase j), ("specSimple", specSimpleCase j),
                           ("specSeq", specSeqCase j), ("specGate", specGateCase j)]
+  | "since" => Json.mkObj [("model", runSinceCase j)]
   | "seek" => Json.mkObj [("model", runSeekCase j)]
   | "store" => Json.mkObj [("model", runStoreCase j)]
   | "c03exh" =>
